@@ -31,7 +31,7 @@ CLAIMS.update({
          '(2) node-level pipeline lemma on harmless_harmful_filter::visit + set_diff_context_from_opts + diff::is_filtered_out: a '
          'node on which a harmful predicate fires (or no predicate at all) is never filtered out with default options; '
          '(3) has_incompatible_changes is true whenever a net removed function/variable exists; (4) abidiff main maps '
-         'has_net_changes/has_incompatible_changes to bits 4/8; (0) ten detection predicates (and three const diff* overloads) of abg-comp-filter.cc (unit predicates) equal their definition over stub diff nodes.',
+         'has_net_changes/has_incompatible_changes to bits 4/8; (0) eleven detection predicates (and their const diff* overloads) of abg-comp-filter.cc (unit predicates) equal their definition over stub diff nodes.',
          'Scoped to the anchored mechanisms. Assumed (not within reach of CBMC\'s C++ front end): the diff tree contains a node on '
          'which the predicate fires, category propagation to parent nodes, redundancy marking, and '
          'apply_filters_and_compute_diff_stats counting an unfiltered changed interface.', '5 C05'),
